@@ -116,6 +116,27 @@ def handlers : List (String × (List Sexp → String)) := [
   ("c14.forward", fun a => run do
       let [.atom b, c, t] := a | none
       pure (toString (fwdSexp (forward (← truthy? t) b (← shape? c))))),
+  -- the table entry called with registries that have entries: tokens named sa… / sb… are staged (override 1 / 2)
+  ("c14.mappedS", fun a => run do
+      let [.atom b, c, t] := a | none
+      let staged : Staging String := fun _ tok => if tok.startsWith "sa" then some 1 else if tok.startsWith "sb" then some 2 else none
+      pure (match callMappedS staged (← truthy? t) b (← shape? c) with
+        | .ok (.py f) => toString (Sexp.list ([.atom "py", .atom f.callee, Sexp.ofBool f.tail] ++ shapeSexp f.call))
+        | .ok (.override o c1) => toString (Sexp.list ([.atom "override", Sexp.ofNat o] ++ shapeSexp c1))
+        | .error (.bind _) => "TypeError"
+        | .error .valueError => "ValueError"
+        | .error (.model w) => "model-error " ++ w)),
+  -- where a generated call stands with respect to C14_forward_table_partial
+  ("c14.coverage", fun a => run do
+      let [.atom b, c] := a | none
+      let c ← shape? c
+      pure (if !(mappedBuiltins.contains b) then "not-in-BUILTIN_FUNCTIONS_MAP"
+            else if !(userShape c) then "sentinel-argument"
+            else if (valuesOf c).any (fun v => match v with | .arg t => t.startsWith "sa" || t.startsWith "sb" | _ => false)
+              then "staged-argument"
+            else if (spec b).any (fun form => accepts form c) then
+              (if supportedBuiltins.contains b then "in-theorem" else "in-theorem(mapped-not-supported)")
+            else "shape-rejected-by-builtin-signature")),
   -- per documented form: accepted?, and the conclusion of C14_forward evaluated on this shape
   ("c14.preserved", fun a => run do
       let [.atom b, c, t] := a | none
@@ -171,6 +192,14 @@ def handlers : List (String × (List Sexp → String)) := [
       let fs ← frames.mapM frame?
       let needed ← needed.mapM Sexp.str?
       pure (toString (Sexp.ofBool (bodyHidesName name (← id.nat?) needed fs)))),
+  -- the frame discipline checker on a recorded stack: (depth, all holders share the first holder's globals)
+  ("c14.genstack", fun a => run do
+      let [.atom name, id, .list frames] := a | none
+      let fs ← frames.mapM frame?
+      let id ← id.nat?
+      match genDepth name id fs, (holders name id fs).head? with
+      | some n, some h => pure (toString (Sexp.list [Sexp.ofNat n, Sexp.ofBool (genGlobalsOk name id h.globals fs)]))
+      | _, _ => pure "none"),
   -- class of C14-stale-dynamic-read: writes are (name inBody nonlocalDecl)
   ("c14.class.stale", fun a => run do
       let [.list needed, .list ws] := a | none
